@@ -239,6 +239,34 @@ def work_multi_json(chunk, st):
     st.sample({'multi_target_json': [list(c) for c in chunk[:2]]}, cap=3)
 
 
+def work_multi_optsets(chunk, st):
+    """every JSON option set through the multi-target path: one well-formed array whose entries are those of the plain -j run"""
+    from props import multitarget as MT
+    from mc import runner
+    lines = ['host0.example', 'host1.example']
+    ref = None
+    for opts in chunk:
+        if ref is None:
+            r0 = runner.run_cli(['--skip-rate-test', '-j', '-T', MT.targets_file(lines), '--threads', '1'], MT.build_world(['CLEAN', 'TERR']))
+            ref = json.loads(r0.stdout)
+        for threads in ('1', '2'):
+            res = runner.run_cli(['--skip-rate-test', '-T', MT.targets_file(lines), '--threads', threads] + list(opts), MT.build_world(['CLEAN', 'TERR']))
+            root = ('multi-optset', opts, threads)
+            st.execution(res.world, outcome=('multi-optset', res.status, opts), root=root, nontrivial=root)
+            tag = ' '.join(opts)
+            try:
+                doc = json.loads(res.stdout)
+            except ValueError as e:
+                st.violation('multi-target-json-not-one-document:%s' % tag, {'opts': list(opts), 'threads': threads, 'error': str(e), 'stdout_head': res.stdout[:200]})
+                continue
+            key = lambda d: d.get('target', '') if isinstance(d, dict) else ''
+            if not isinstance(doc, list) or sorted(doc, key=key) != sorted(ref, key=key):
+                st.violation('multi-target-json-differs-from-plain-j:%s' % tag, {'opts': list(opts), 'threads': threads, 'stdout_head': res.stdout[:200]})
+            if res.status != r0.status:
+                st.violation('multi-target-status-depends-on-options:%s' % tag, {'opts': list(opts), 'status': res.status, 'plain': r0.status})
+    st.sample({'multi_target_optsets': [list(o) for o in chunk[:2]]}, cap=3)
+
+
 def work_zoo(chunk, st):
     from props import zoo
     for name in chunk:
@@ -293,6 +321,7 @@ def run(tier, seed):
     from props import zoo, multitarget as MT
     par.pmap(work_zoo, zoo.names(tier), stats=st, chunk=4)
     par.pmap(work_multi_json, [(b, o, k) for b in sorted(MT.FAILING) for o in ('-j', '-jj') for k in (0, 1)], stats=st, chunk=4)
+    par.pmap(work_multi_optsets, [o for o in optsets() if '-j' in o or '-jj' in o], stats=st, chunk=3)
     vcases = []
     osets = optsets()
     for pname, spec in ps.items():
@@ -306,7 +335,7 @@ def run(tier, seed):
         PID, tier, seed, st, t0,
         rule='%d peers covering every severity mix (clean, warn-only, failures, Terrapin, unknown, gss, small RSA, small/OpenSSH GEX, SSH-1, header, '
              'certificate, compression, non-ASCII banner%s) x all %d combinations of -b, -v, -n, -l {info,warn,fail}, {text,-j,-jj}, each run twice; '
-             'fresh interpreters under PYTHONHASHSEED 0/1/2/random for selected peers; the peers of props/zoo.py x %d option sets; -T with every failing archetype next to a healthy target under -j and -jj (one well-formed array)' % (len(ps), ', 24 database slices' if tier != 'quick' else '', len(optsets()), len(ZOO_OPTSETS)),
+             'fresh interpreters under PYTHONHASHSEED 0/1/2/random for selected peers; the peers of props/zoo.py x %d option sets; -T with every failing archetype next to a healthy target under -j and -jj (one well-formed array); -T with two healthy targets under every option set containing -j/-jj, 1 and 2 threads (entries equal those of plain -j)' % (len(ps), ', 24 database slices' if tier != 'quick' else '', len(optsets()), len(ZOO_OPTSETS)),
         assumptions=['with colours on, a line\'s level is read from its colour', 'JSON compared with text for names the database knows'],
         exhaustive=True, traces_validated=validated)
 
